@@ -257,3 +257,24 @@ Theorem C18_coincide_example :
   area r = area s /\ area_overlap r s = qc 2 1.
 Proof. exact coincide_example. Qed.
 Print Assumptions C18_coincide_example.
+
+(* ---- near-equal region names: compared exactly ---- *)
+Theorem C18_region_differs_no_inter : forall r s, region r <> region s -> inter r s = None /\ inter s r = None.
+Proof. exact inter_region_differs. Qed.
+Print Assumptions C18_region_differs_no_inter.
+
+Theorem C18_region_differs_not_eq : forall r s, region r <> region s -> req r s = false /\ req s r = false.
+Proof. exact req_region_differs. Qed.
+Print Assumptions C18_region_differs_not_eq.
+
+Theorem C18_near_distinct_neq : forall a b, near_distinct a b = true <-> a <> b.
+Proof. exact near_distinct_neq. Qed.
+Print Assumptions C18_near_distinct_neq.
+
+(* dsp / DSP: a common area of 4, no intersection in either order, not equal *)
+Theorem C18_near_case_example :
+  let r := mkRect (qc 2 1) (qc 2 1) (qc 4 1) (qc 4 1) false false "dsp" NOPOLY in
+  let s := mkRect (qc 2 1) (qc 2 1) (qc 10 1) (qc 1 1) false false "DSP" NOPOLY in
+  inter r s = None /\ inter s r = None /\ req r s = false /\ area_overlap r s = qc 4 1.
+Proof. exact near_case_example. Qed.
+Print Assumptions C18_near_case_example.
